@@ -9,6 +9,7 @@ import (
 	"go/token"
 	"go/types"
 	"reflect"
+	"unsafe"
 
 	"golang.org/x/tools/go/ssa"
 
@@ -819,7 +820,25 @@ func ext۰reflect۰Value۰Convert(fr *frame, args []value) value {
 }
 
 func ext۰reflect۰Value۰Pointer(fr *frame, args []value) value {
-	panic(abortPath{"inconclusive", "reflect.Value.Pointer not modelled"})
+	// addresses of the executor's own cells stand in for target addresses:
+	// equal iff same cell (interior pointers to a struct's first field are
+	// distinct cells here — a stated limitation)
+	switch x := rV2V(args[0]).(type) {
+	case *value:
+		return uintptr(unsafe.Pointer(x))
+	case *smap:
+		return uintptr(unsafe.Pointer(x))
+	case []value:
+		if cap(x) == 0 {
+			return uintptr(0)
+		}
+		return uintptr(unsafe.Pointer(&x[:1][0]))
+	case *closure:
+		return uintptr(unsafe.Pointer(x))
+	case *ssa.Function:
+		return uintptr(unsafe.Pointer(x))
+	}
+	panic(valueErr(fr, "reflect.Value.Pointer", args[0]))
 }
 
 func ext۰reflect۰Kind۰String(fr *frame, args []value) value {
@@ -888,4 +907,66 @@ func prepareReflect(prog *ssa.Program) {
 			types.NewField(token.NoPos, r.Pkg, "flag", types.Typ[types.Int], false),
 		}, nil))
 	}
+}
+
+// ---- MapRange
+
+type mapIterModel struct {
+	m    *smap
+	mt   *types.Map
+	ord  []int
+	pos  int
+	flag int
+}
+
+func ext۰reflect۰Value۰MapRange(fr *frame, args []value) value {
+	t := rV2T(args[0]).t
+	if t == nil {
+		panic(valueErr(fr, "reflect.Value.MapRange", args[0]))
+	}
+	mt, ok := t.Underlying().(*types.Map)
+	if !ok {
+		panic(valueErr(fr, "reflect.Value.MapRange", args[0]))
+	}
+	m := rV2V(args[0]).(*smap)
+	var site *ssa.Function
+	if fr.caller != nil {
+		site = fr.caller.fn
+	}
+	var ord []int
+	if m != nil {
+		ord = m.order(fr.i, site)
+	}
+	cell := value(&mapIterModel{m: m, mt: mt, ord: ord, pos: -1, flag: rV2F(args[0]) & rflagRO})
+	return &cell
+}
+
+func mapIterOf(fr *frame, v value) *mapIterModel {
+	p := v.(*value)
+	if p == nil {
+		panic(runtimePanic(fr.i, "invalid memory address or nil pointer dereference"))
+	}
+	return (*p).(*mapIterModel)
+}
+
+func ext۰reflect۰MapIter۰Next(fr *frame, args []value) value {
+	it := mapIterOf(fr, args[0])
+	it.pos++
+	return it.pos < len(it.ord)
+}
+
+func ext۰reflect۰MapIter۰Key(fr *frame, args []value) value {
+	it := mapIterOf(fr, args[0])
+	if it.pos < 0 || it.pos >= len(it.ord) {
+		panic(reflectPanic(fr, "MapIter.Key called before Next or after exhaustion"))
+	}
+	return makeReflectValueF(it.mt.Key(), it.m.keys[it.ord[it.pos]], it.flag)
+}
+
+func ext۰reflect۰MapIter۰Value(fr *frame, args []value) value {
+	it := mapIterOf(fr, args[0])
+	if it.pos < 0 || it.pos >= len(it.ord) {
+		panic(reflectPanic(fr, "MapIter.Value called before Next or after exhaustion"))
+	}
+	return makeReflectValueF(it.mt.Elem(), copyVal(it.m.vals[it.ord[it.pos]]), it.flag)
 }
